@@ -593,8 +593,11 @@ def sim_classes():
             ok = answer['ok'] if credit == 1 else self.grade_decimal_to_ok(grade)
             result = {'ok': ok, 'grade_decimal': grade, 'msg': msg}
             if self.config['shared']:
-                cache = self.__dict__.setdefault('_results', {})
-                key = (answer['expect'], student_input, grade, msg, str(ok))
+                # module-level constants in the author's script: every grader of this world built
+                # from the same table hands out the same objects
+                cache = env.__dict__.setdefault('shared_results', {})
+                key = (answer['expect'], student_input if self.config['tag'] else (student_input == answer['expect']),
+                       repr(grade), msg, repr(ok))
                 return cache.setdefault(key, result)
             return result
 
